@@ -102,7 +102,8 @@ fn run_scenario(sc: &Value) {
     rec(json!({"ev": "preset", "scenario": sc["id"], "max": max, "min": min, "nt": nt,
                "order": sc.get("order").and_then(Value::as_bool).unwrap_or(false)}));
     let pool: &'static mut CoroutinePool<'static> =
-        Box::leak(Box::new(CoroutinePool::new(format!("pool{}", sc["id"]), 128 * 1024, min, max, 0)));
+        Box::leak(Box::new(CoroutinePool::new(format!("pool{}", sc["id"]), 128 * 1024, min, max,
+                                              sc.get("keep_alive_ms").and_then(Value::as_u64).unwrap_or(0) * 1_000_000)));
     let hist = sc["hist"].as_array().unwrap();
     let mut ids: HashMap<u64, u64> = HashMap::new();
     let mut waiters = vec![];
